@@ -165,7 +165,8 @@ def gen_task(rng, c=None):
                 'pre': [[rng.choice(('nop', 'inner', 'yield'))]
                         for _ in range(rng.randint(0, 3))]}
     return {'c': 'D', 'exc': rng.choice(EXC_KINDS_EXCEPTION),
-            'state': rng.choice(('file', 'file', 'missing', 'dir')),
+            'state': rng.choice(('file', 'file', 'missing', 'dir', 'file',
+                                 'dangling', 'symlink', 'loop')),
             'remove': core.weighted(rng, [
                 ('default', 4), ('custom_ok', 2),
                 ('inject', 3), ('param_default', 1), ('backend', 2)]),
@@ -492,6 +493,16 @@ class Real:
                 f.write('x')
         elif s['state'] == 'dir':
             os.makedirs(path)
+        elif s['state'] == 'dangling':
+            # what is left when the block fails between creating a link and
+            # writing what it points to
+            os.symlink(path + '.staged-not-yet-written', path)
+        elif s['state'] == 'symlink':
+            with open(path + '.target', 'w') as f:
+                f.write('x')
+            os.symlink(path + '.target', path)
+        elif s['state'] == 'loop':
+            os.symlink(path, path)
         calls = []
         rm_err = OSError(s['errno'], 'injected', path)
         self.objs['%s:rm' % self.tid] = rm_err
@@ -564,6 +575,10 @@ class Real:
         self.notes['rm_calls'] = calls
         self.notes['path'] = path
         self.notes['exists_after'] = os.path.lexists(path)
+
+
+# directory entries that os.unlink removes (whatever a link points to)
+FILEISH = ('file', 'dangling', 'symlink', 'loop')
 
 
 def tb_endswith(full, suffix):
@@ -904,7 +919,7 @@ class C09(Check):
             exists = r.notes.get('exists_after')
             if not raised:
                 expect(None)
-                if calls or (s['state'] == 'file' and not exists):
+                if calls or (s['state'] in FILEISH and not exists):
                     viol('path_removed_without_error')
             else:
                 bump(fa, 'exception_in_handler_body')
@@ -916,7 +931,7 @@ class C09(Check):
                     if calls != [r.notes['path']]:
                         viol('remover_not_called_once', calls=len(calls))
                 elif rm == 'custom_ok':
-                    if s['state'] == 'file':
+                    if s['state'] in FILEISH:
                         expect(dlabel)
                         if exists:
                             viol('path_not_removed')
@@ -932,7 +947,7 @@ class C09(Check):
                 else:
                     if rm == 'backend' and s['state'] == 'missing':
                         bump(pr, 'backend_reports_enoent_its_own_way')
-                    if s['state'] in ('file', 'missing'):
+                    if s['state'] in FILEISH + ('missing',):
                         expect(dlabel)
                         if exists:
                             viol('path_not_removed')
